@@ -673,6 +673,20 @@ def check_ctor_snapshot(ctx, cls):
             call = parents[id(par)]
             if not any(k.arg is None for k in call.keywords):
                 over = {k.arg for k in call.keywords}
+        else:
+            # the copy is bound to a local or to an attribute first and re-configured through that name in __init__:
+            # `c = cost.clone(); self._c = c.set_params(param=None)` is the chained form in two statements
+            tgt = None
+            if isinstance(par, (ast.Assign, ast.AnnAssign)) and par.value is n:
+                t0 = par.targets[0] if isinstance(par, ast.Assign) and len(par.targets) == 1 else (par.target if isinstance(par, ast.AnnAssign) else None)
+                if isinstance(t0, (ast.Name, ast.Attribute)):
+                    tgt = ast.unparse(t0)
+            if tgt is not None:
+                for m_ in ast.walk(init.node):
+                    if isinstance(m_, ast.Call) and isinstance(m_.func, ast.Attribute) and m_.func.attr == "set_params" and ast.unparse(m_.func.value) == tgt and getattr(m_, "lineno", 0) >= getattr(n, "lineno", 0):
+                        if not any(k.arg is None for k in m_.keywords):
+                            over |= {k.arg for k in m_.keywords}
+                            par = m_.func
         classes = _annotation_classes(ctx, init, comp)
         key = f"{cls.name}|{comp}|ctor-snapshot"
         msg = f"__init__ takes no copy of the component hyper-parameter '{comp}' that could go stale: nested set_params({comp}__<param>=...) is applied after __init__ has re-run, so a copy made here keeps the old nested parameters (copies belong in _fit)"
